@@ -10,9 +10,9 @@
     `Props.C06.Expect`, compared with Go's `regexp` on every generated string
     by the harness);
   * `decimalValue`: the rational a pattern member denotes, read digit by digit;
-  * `fits64`: "whose value fits in 64 bits", made precise for the parser as
-    it is: each part is an int64, at most 18 decimals, and the combined
-    digits (without the point) do not exceed 2^63-1.
+  * `fits64`: "whose value fits in 64 bits", made precise: at most 18
+    decimals, and the number the digits (without the point) form, with the
+    sign of the text, is an int64: −2^63 … 2^63−1.
 
   Texts are byte lists (see Model/Codec.lean).  Core Lean only.
 -/
@@ -73,12 +73,15 @@ def decimalValue (s : Text) : Rat :=
   let m : Rat := ((unscaled s : Nat) : Int) / (((10 : Int) ^ decimals s : Int) : Rat)
   if negative s then -m else m
 
-/-- "fits in 64 bits" for the parser as it is now -/
+/-- the digits without the point as one integer, with the sign of the text: the
+    value in units of 10^-decimals -/
+def signedUnscaled (s : Text) : Int := if negative s then -(unscaled s : Int) else (unscaled s : Int)
+
+/-- "fits in 64 bits": at most 18 decimals, and the digits with the sign of the
+    text are an int64.  The range is not symmetric: −2^63 fits, 2^63 does not. -/
 def fits64 (s : Text) : Bool :=
-  decide (digitsValue (intDigits s) < 2 ^ 63) &&
-  decide (digitsValue (fracDigits s) < 2 ^ 63) &&
   decide (decimals s ≤ 18) &&
-  decide (unscaled s ≤ 2 ^ 63 - 1)
+  decide (-(2 : Int) ^ 63 ≤ signedUnscaled s) && decide (signedUnscaled s ≤ 2 ^ 63 - 1)
 
 /-! ### JSON spellings of a text (RFC 8259 section 7)
 
